@@ -27,6 +27,9 @@ pub enum Creds {
     Basic(String, String),
     /// SNI credentials (accepted by the authenticator), no header
     Sni(String),
+    /// Basic credentials whose decoded value has no colon (no registry configured: they reach
+    /// the forwarder; only the extended format can carry them)
+    Token(String),
 }
 
 #[derive(Clone, Debug, Serialize, Deserialize, PartialEq)]
@@ -117,8 +120,12 @@ impl Scenario for Socks {
 
     fn generate(&self, seed: u64, index: u64, _tier: Tier) -> Value {
         let mut rng = Rng::new(seed).fork(&format!("socks{}", index));
-        let creds = match rng.below(8) {
+        let creds = match rng.below(9) {
             0 => Creds::None,
+            8 => {
+                let l = 8 + rng.usize_below(40);
+                Creds::Token(format!("TOKEN-{}", rand_text(&mut rng, l, false).replace(':', "c")))
+            }
             1 => {
                 let l = 1 + rng.usize_below(40);
                 Creds::Sni(rand_text(&mut rng, l, false).replace(' ', "s"))
@@ -507,6 +514,7 @@ fn basic_value(c: &Creds) -> Option<String> {
     use base64::Engine;
     match c {
         Creds::Basic(u, p) => Some(base64::engine::general_purpose::STANDARD.encode(format!("{}:{}", u, p))),
+        Creds::Token(t) => Some(base64::engine::general_purpose::STANDARD.encode(t)),
         _ => None,
     }
 }
@@ -564,6 +572,12 @@ async fn run(plan: KPlan) -> Obs {
     };
     if let Creds::Basic(_, p) = &plan.creds {
         sim::canary("configured-password", p);
+    }
+    if let Creds::Token(t) = &plan.creds {
+        sim::canary("proxy-authorization", t);
+    }
+    if let Some(t) = basic_value(&plan.creds) {
+        sim::canary("proxy-authorization", &t);
     }
     let session = {
         let core = ep.core.clone();
@@ -849,6 +863,7 @@ fn judge(plan: &KPlan, o: &Obs, out: &mut Outcome) {
             }
         }
         Creds::Sni(_) => "sni",
+        Creds::Token(_) => "basic-nocolon",
     };
     let dest_kind = match &plan.dest {
         Dest::V4(_) => "v4",
@@ -924,6 +939,8 @@ fn judge(plan: &KPlan, o: &Obs, out: &mut Outcome) {
             let (wu, wp): (Vec<u8>, Vec<u8>) = match &plan.creds {
                 Creds::Basic(u, p) => (u.as_bytes().to_vec(), p.as_bytes().to_vec()),
                 Creds::Sni(x) => (x.as_bytes().to_vec(), x.as_bytes().to_vec()),
+                // nothing can be "the two halves" of a value without a colon: any such message differs
+                Creds::Token(_) => (vec![0xff], vec![0xff]),
                 Creds::None => (vec![], vec![]),
             };
             if *u != wu || *p != wp {
@@ -951,7 +968,7 @@ fn judge(plan: &KPlan, o: &Obs, out: &mut Outcome) {
                 (a, b) => out.violate("C15", "socks:extended:user-agent", format!("sent {:?}, expected {:?}", b.map(|v| String::from_utf8_lossy(&v).into_owned()), a)),
             }
             match &plan.creds {
-                Creds::Basic(..) => {
+                Creds::Basic(..) | Creds::Token(_) => {
                     if get(4).map(|v| String::from_utf8_lossy(&v).into_owned()) != basic_value(&plan.creds) || get(5).is_some() {
                         out.violate("C15", "socks:extended:proxy-auth", "PROXY_AUTH differs from the client's token (or SNI_AUTH also present)".to_string());
                     }
